@@ -229,6 +229,74 @@ def context_managers(check, P):
                 if cm_name == "named_transform" and inside != before[0]:
                     pass   # inside the body the named state 'a' is active; saved right before, so equal mapping is expected
             check.floor(not (done == 0), f"C13.R3: {cm_name} ({body_kind}) has no completing path")
+    # ---- nested contexts: each exit puts back what was in effect at *its own* entry
+    def drive(I, cm, body):
+        gfr = cm.frame
+        gfr.yield_cb = body
+        depth = len(I.frames)
+        I.frames.append(gfr)
+        raised = None
+        try:
+            try:
+                I.exec_block(cm.func.node.body, gfr)
+            except _Return:
+                pass
+            except AbsRaise as e:
+                raised = e.exc.cls
+        finally:
+            del I.frames[depth:]
+            gfr.yield_cb = None
+        return raised
+
+    for outer_name, inner_name in (("current_transform", "current_transform"), ("current_transform", "named_transform"), ("named_transform", "current_transform")):
+        for inner_raises in (False, True):
+            def entry(I, _, outer_name=outer_name, inner_name=inner_name, inner_raises=inner_raises):
+                pub = W.public_methods()
+                W.call_method(I, "xf", "chain_transform", (M,))
+                W.call_method(I, "xf", "save_state", ())
+                W.call_method(I, "xf", "save_state", (Const("a"),))
+                W.call_method(I, "xf", "chain_transform", (Unk("arg.M3", "array"),))
+                args = lambda nme: {"name": Const("a")} if nme == "named_transform" else {}
+                before = (cur_sig(I), stack_sig(I))
+                seen = {}
+
+                def outer_body(val):
+                    W.call_method(I, "xf", "chain_transform", (Unk("arg.M2", "array"),))
+                    seen["mid"] = (cur_sig(I), stack_sig(I))
+                    inner = W.call_entry(I, pub[inner_name], args(inner_name))
+
+                    def inner_body(v2):
+                        W.call_method(I, "xf", "chain_transform", (Unk("arg.M4", "array"),))
+                        W.call_method(I, "xf", "save_state", ())
+                        if inner_raises:
+                            I.raise_("BodyError", node, note="inner with-body raises")
+                    seen["inner_raised"] = drive(I, inner, inner_body)
+                    seen["after_inner"] = (cur_sig(I), stack_sig(I))
+                    W.call_method(I, "xf", "chain_transform", (Unk("arg.M5", "array"),))
+                outer = W.call_entry(I, pub[outer_name], args(outer_name))
+                drive(I, outer, outer_body)
+                after = (cur_sig(I), stack_sig(I))
+                return (before, after, seen.get("mid"), seen.get("after_inner"))
+            done = 0
+            for path in I.explore(lambda I: None, entry, max_dev=None, max_paths=5000):
+                n += 1
+                if path.outcome != "return":
+                    continue
+                before, after, mid, after_inner = path.value
+                if mid is None or after_inner is None:
+                    continue            # the scripted body itself was cut short (the API rejected one of its symbolic matrices)
+                done += 1
+                label = f"{inner_name}() nested in {outer_name}(), inner body {'raises' if inner_raises else 'returns'}"
+                if mid is not None and after_inner == mid:
+                    check.ok("R3", f"{label}: the inner exit restores the outer body's transform and stack")
+                else:
+                    check.violation("R3", f"nested:{outer_name}:{inner_name}:inner-exit", f"{label}: after the inner context the transform / stack are {after_inner}, the outer body had {mid}", [decisions_text(path)])
+                if after == before:
+                    check.ok("R3", f"{label}: the outer exit restores the transform and stack of its own entry")
+                else:
+                    check.violation("R3", f"nested:{outer_name}:{inner_name}:outer-exit", f"{label}: after the outer context the transform is {after[0][0]} with stack {after[1]}; "
+                                    f"on entry it was {before[0][0]} with stack {before[1]} (the contexts are not re-entrant)", [decisions_text(path)])
+            check.floor(done >= 1, f"C13.R3: nested {outer_name}/{inner_name} has no completing path")
     return n
 
 
